@@ -9,6 +9,7 @@ import sys, os, subprocess, tempfile, shutil, json, time
 src, sid, prop = sys.argv[1:4]
 extra = sys.argv[4:]
 base = tempfile.mkdtemp(prefix="vs-", dir="/dev/shm")
+os.chmod(base, 0o755)        # demonstrations that deliver as a non-root user must be able to reach their scratch home
 res = {"property": prop, "id": sid}
 try:
     files = subprocess.run(["git", "-C", "/repo", "ls-files", "-z"], stdout=subprocess.PIPE, check=True).stdout
